@@ -122,6 +122,7 @@ def run_impl(world, c0, history, catch=None, timeout=10.0, iwp=False, clock_via=
     obs = []
     trace = []          # richer event list for the oracles (never compared with the model)
     phandles = []
+    depth = [0]         # > 0 while an action (or a periodic action) is running
     s._enq_hook = lambda i, due: trace.append(("enq", i, w.us(due)))
 
     def read():
@@ -135,8 +136,9 @@ def run_impl(world, c0, history, catch=None, timeout=10.0, iwp=False, clock_via=
         def handler(ex):
             code = ex.code if isinstance(ex, UserErr) else (AOOR if isinstance(ex, ArgumentOutOfRangeException) else -99)
             obs.append(("handler", code))
-            trace.append(("handler", code))
-            return catch[str(code)] if str(code) in catch else catch.get(code, False)
+            v = catch[str(code)] if str(code) in catch else catch.get(code, False)
+            trace.append(("handler", code, bool(v)))
+            return v
         top = CatchScheduler(s, handler)
     else:
         top = s
@@ -157,11 +159,11 @@ def run_impl(world, c0, history, catch=None, timeout=10.0, iwp=False, clock_via=
                 trace.append(("pcancel", pid))
                 phandles[pid].dispose()
                 return 0
-            trace.append(("raise", r[2]))
+            trace.append(("raise", r[2], 1, pid, 1))
             raise UserErr(r[2])
         return paction
 
-    def do(sc, cmd):
+    def do(sc, cmd, sd=0):
         k = cmd[0]
         if k == "sched":
             _, when, label, body = cmd
@@ -175,8 +177,12 @@ def run_impl(world, c0, history, catch=None, timeout=10.0, iwp=False, clock_via=
                 if label >= 0:
                     obs.append(("run", label, k_))
                 trace.append(("run", iid, label, k_))
-                for c in body:
-                    do(sc2, c)
+                depth[0] += 1
+                try:
+                    for c in body:
+                        do(sc2, c, sd + 1)
+                finally:
+                    depth[0] -= 1
             if when[0] == "rel":
                 sc.schedule_relative(w.rel_(when[1]), action)
             elif when[0] == "abs":
@@ -195,10 +201,13 @@ def run_impl(world, c0, history, catch=None, timeout=10.0, iwp=False, clock_via=
             before = read()
             try:
                 s.sleep(w.rel_(cmd[1]))
-            finally:
+            except ArgumentOutOfRangeException:
                 trace.append(("sleep", cmd[1], before, read()))
+                trace.append(("raise", AOOR, depth[0], None, sd))
+                raise
+            trace.append(("sleep", cmd[1], before, read()))
         elif k == "raise":
-            trace.append(("raise", cmd[1]))
+            trace.append(("raise", cmd[1], depth[0], None, sd))
             raise UserErr(cmd[1])
         elif k == "note":
             obs.append(("note", cmd[1]))
@@ -362,13 +371,15 @@ class Gen:
     """random histories.  `unit` scales the small integers drawn for times."""
 
     def __init__(self, rng, unit=US, labels=None, allow=("cancel", "stop", "sleep"), max_depth=3,
-                 neg=True, raise_p=0.0, periodic_p=0.0):
+                 neg=True, raise_p=0.0, periodic_p=0.0,
+                 table_kinds=("count", "count", "cycle", "raise", "disp")):
         self.rng, self.unit, self.allow, self.max_depth = rng, unit, allow, max_depth
         self.next_label = 0
         self.neg = neg
         self.raise_p, self.periodic_p = raise_p, periodic_p
         self.nsched = 0
         self.nper = 0
+        self.table_kinds = table_kinds
 
     def delay(self):
         r = self.rng
@@ -391,7 +402,7 @@ class Gen:
     def table(self):
         r = self.rng
         n = r.choice([1, 2, 3, 4, 6])
-        kind = r.choice(["count", "count", "cycle", "raise", "disp"])
+        kind = r.choice(self.table_kinds)
         entries = []
         for i in range(n):
             entries.append([i, ["next", [], (i + 1) if kind != "cycle" else (i + 1) % n]])
@@ -590,4 +601,51 @@ def oracle_vt(world, trace, check_exact=True):
             in_loop = False
         elif k == "hang":
             bad.append(("hang", f"no return within the watchdog during {top[1:] if top else None}"))
+    return bad
+
+
+# ------------------------------------------------------------------ oracle (C42)
+
+def oracle_catch(trace):
+    """Direct predicate of the C42 statement on the implementation's trace of a
+    history run through CatchScheduler.  Returns [(signature, detail)]."""
+    bad = []
+    dead = set()        # periodic subscriptions whose action raised
+    seg_handlers = []   # handler events of the current top-level call
+    seg_after_reject = False
+    exc = None
+    for i, ev in enumerate(trace):
+        k = ev[0]
+        if k == "top":
+            seg_handlers, seg_after_reject, exc = [], False, None
+        elif k == "raise":
+            _, e, depth, pid = ev[:4]
+            if depth > 0:
+                nxt = trace[i + 1] if i + 1 < len(trace) else None
+                if not (nxt and nxt[0] == "handler" and nxt[1] == e):
+                    bad.append(("exception-not-passed-to-handler", f"an action raised {e}; next event {nxt}"))
+                if pid is not None:
+                    dead.add(pid)
+        elif k == "handler":
+            prev = trace[i - 1] if i else None
+            if not (prev and prev[0] == "raise" and prev[1] == ev[1] and prev[2] > 0):
+                bad.append(("handler-called-without-raise", f"handler({ev[1]}) after {prev}"))
+            seg_handlers.append(ev)
+            if not ev[2]:
+                seg_after_reject = True
+        elif k in ("run", "tick"):
+            if seg_after_reject:
+                bad.append(("work-continued-after-rejected-exception", f"{ev} after the handler returned False"))
+            if k == "tick" and ev[1] in dead:
+                bad.append(("periodic-called-after-failure", f"{ev}"))
+        elif k == "exc":
+            exc = ev[1]
+        elif k == "ret":
+            rejected = [h for h in seg_handlers if not h[2]]
+            if exc is None and rejected:
+                bad.append(("rejected-exception-swallowed", f"handler returned False for {rejected[0][1]} but the call returned normally"))
+            if exc is not None and seg_handlers and not rejected:
+                bad.append(("accepted-exception-propagated", f"call raised {exc} although the handler accepted {seg_handlers}"))
+            if exc is not None and rejected and rejected[-1][1] != exc:
+                bad.append(("wrong-exception-propagated", f"call raised {exc}, handler rejected {rejected[-1][1]}"))
     return bad
